@@ -78,5 +78,8 @@ func tryReplay(w *World, res *checkResult, g *oblGroup, o *Obligation, model map
 	if d := shipReplay(w, g, o, model, repo, base); d != nil {
 		return d["reproduced"] == true, d
 	}
+	if d := hubReplay(w, g, repo); d != nil {
+		return d["reproduced"] == true, d
+	}
 	return false, nil
 }
